@@ -95,6 +95,19 @@ def gen_bw(rng, idx):
     return pats
 
 
+def gen_bw_tangle(rng, idx):
+    """Seeded sets with dense prefix/suffix/infix relations: 3-6 patterns of length 1-5 over {a,b,c}
+    plus an occasional x.  This is where fail links, dead links below pattern ends and inherited
+    outputs interact; each set is cheap to validate (T2/T34 5-10 s)."""
+    n = rng.randint(3, 6)
+    pats = set()
+    while len(pats) < n:
+        pats.add("".join(rng.choice("abcabcx") for _ in range(rng.randint(1, 5))))
+    pats = sorted(pats)
+    rng.shuffle(pats)
+    return [p.encode() for p in pats]
+
+
 def gen_bw_edge(rng, idx):
     """Tiny seeded sets over bytes at the edges of a 256-slot block (0x00.., ..0xFF): 2-4 patterns of
     length 1-2.  Cheap to validate (T1 ~5 s) and they move BASE values onto the slots whose CHECK
